@@ -27,7 +27,7 @@ func DecodeInt16(b []byte) (int16, int, error) {
 	switch typ {
 	case format.TypeInt16, format.TypeInt32:
 		v, m := compactint.ReverseInt32(b[:end])
-		if m < 0 {
+		if m <= 0 {
 			return 0, 0, errors.New("decode int16: invalid data")
 		}
 
@@ -43,7 +43,7 @@ func DecodeInt16(b []byte) (int16, int, error) {
 
 	case format.TypeInt64:
 		v, m := compactint.ReverseInt64(b[:end])
-		if m < 0 {
+		if m <= 0 {
 			return 0, 0, errors.New("decode int16: invalid data")
 		}
 
@@ -75,7 +75,7 @@ func DecodeInt32(b []byte) (int32, int, error) {
 	switch typ {
 	case format.TypeInt16, format.TypeInt32:
 		v, m := compactint.ReverseInt32(b[:end])
-		if m < 0 {
+		if m <= 0 {
 			return 0, 0, errors.New("decode int32: invalid data")
 		}
 
@@ -84,7 +84,7 @@ func DecodeInt32(b []byte) (int32, int, error) {
 
 	case format.TypeInt64:
 		v, m := compactint.ReverseInt64(b[:end])
-		if m < 0 {
+		if m <= 0 {
 			return 0, 0, errors.New("decode int32: invalid data")
 		}
 
@@ -116,7 +116,7 @@ func DecodeInt64(b []byte) (int64, int, error) {
 	switch typ {
 	case format.TypeInt16, format.TypeInt32:
 		v, m := compactint.ReverseInt32(b[:end])
-		if m < 0 {
+		if m <= 0 {
 			return 0, 0, errors.New("decode int64: invalid data")
 		}
 		n += m
@@ -124,7 +124,7 @@ func DecodeInt64(b []byte) (int64, int, error) {
 
 	case format.TypeInt64:
 		v, m := compactint.ReverseInt64(b[:end])
-		if m < 0 {
+		if m <= 0 {
 			return 0, 0, errors.New("decode int64: invalid data")
 		}
 		n += m
